@@ -7,7 +7,10 @@ Monitors (DESIGN.md section 3, C14):
   prog     free-form random programs (assignments to every lvalue kind, control flow, functions, subroutines,
            function literals + higher-order functions, maps/arrays, print/dump/emit*/filter, put -q/-x, filter -x)
            on random heterogeneous record streams, at --records-per-batch 1 and default
-  shape    a fixed list of scoping / typing / indexing / emit shapes, each instantiated with random leaves
+  astpair  every ordered pair of binary operators (both groupings), unary/binary and ternary mixes, printed with minimal
+           parentheses: the syntax tree reported by `put -v` against the documented precedence table (model-free, exhaustive;
+           reaches the pairs whose groupings cannot be told apart by value)
+  shape    a fixed list of scoping / typing / indexing / emit / loop-snapshot shapes, each instantiated with random leaves
   emitverb emit / emitp by names against the grouping verbs (stats1, count-distinct), no interpreter involved
   canary   indexed assignment to a scalar-valued / unset / absent variable must not change any other value
            (other variables, fresh literals, typeof(@nosuch), typeof(""), 1==1): model-free regression guard
@@ -82,8 +85,12 @@ def mlr_run(p, records, batch=None, style=0):
     return r, argv, text
 
 
-def judge(kind, exp, r):
-    """None if mlr's run agrees with the reference outcome, else (failure kind, got-summary)."""
+PARSE_ERROR_RE = re.compile(r"parse error|syntax error|cannot parse DSL|unexpected token", re.I)
+
+
+def judge(kind, exp, r, partial=None):
+    """None if mlr's run agrees with the reference outcome, else (failure kind, got-summary).
+    partial: for an expected-fatal run, the items the reference had written when the fatal statement was reached."""
     if r.verdict == "slow":
         return ("inconclusive", None)
     if r.verdict in ("deadlock", "cpu", "output-cap"):
@@ -91,9 +98,22 @@ def judge(kind, exp, r):
     if r.crashed():
         return ("crash", r.brief(1500))
     if kind == "fatal":
-        if r.rc not in (None, 0):
-            return None
-        return ("expected-failure-but-succeeded", r.brief())
+        if r.rc in (None, 0):
+            return ("expected-failure-but-succeeded", r.brief())
+        # the run must fail *at the statement the documentation makes fatal*: every generated program is grammatical, so
+        # a parse error is a different failure; and whatever reached stdout before the failure must be what the reference
+        # had written by then (output still buffered when the process exits may be missing: a prefix is required)
+        if PARSE_ERROR_RE.search(r.err):
+            return ("expected-runtime-failure-but-parse-error", r.brief())
+        if partial is not None:
+            try:
+                got = D.parse_stdout(r.out)
+            except Exception:
+                return None      # cut inside a multi-line value by the exit: nothing to compare
+            if got != partial[:len(got)]:
+                return ("output-before-failure-differs", {"first_difference": first_diff(partial[:len(got)], got), "stdout": r.out[:3000],
+                                                          "stderr": r.err[:400]})
+        return None
     if r.rc != 0:
         return ("unexpected-failure", r.brief())
     try:
@@ -163,9 +183,11 @@ def constructs(prog):
     return sorted(out)
 
 
-def shrink(p, records, batch, style, fail_kind, budget=90):
+def shrink(p, records, batch, style, fail_kind, budget=90, allowed=None, forbid=frozenset()):
     """Greedy shrinking: delete statements / replace subexpressions / drop records while the same kind of
-    disagreement persists (and the reference neither declines nor changes its kind of outcome)."""
+    disagreement persists (and the reference neither declines nor changes its kind of outcome).
+    allowed: risk features (Interp.feats) of the original run - a candidate may not bring in a new one (the witness must
+    not drift onto another, possibly already listed, defect); forbid: features a candidate must not have."""
     runs = 0
     cur_p, cur_recs = p, records
 
@@ -178,9 +200,13 @@ def shrink(p, records, batch, style, fail_kind, budget=90):
         k, exp, it = ref_run(pp_, recs)
         if k == "decline":
             return False
+        if allowed is not None and not (it.feats <= allowed):
+            return False
+        if it.feats & forbid:
+            return False
         runs += 1
         r, argv, text = mlr_run(pp_, recs, batch, style)
-        j = judge(k, exp, r)
+        j = judge(k, exp, r, partial_of(k, it))
         return j is not None and j[0] == fail_kind
 
     # coarse pass: drop chunks of top-level statements (ddmin-style) and of records before the fine-grained pass
@@ -260,6 +286,10 @@ def shrink(p, records, batch, style, fail_kind, budget=90):
     return cur_p, cur_recs
 
 
+def partial_of(kind, it):
+    return list(it.out) if kind == "fatal" and it is not None else None
+
+
 def check_program(res, p, records, batches=(None,), style=0, monitor="prog", extra_sig=None, do_shrink=True):
     """Run the reference and mlr; record a violation (after shrinking) on disagreement.
     Returns the reference's outcome kind ("ok"/"fatal"/"decline") and the interpreter."""
@@ -268,25 +298,40 @@ def check_program(res, p, records, batches=(None,), style=0, monitor="prog", ext
         res["skipped"] += 1
         bump(res, "declined")
         return kind, None
+    outcome = kind
+    reported = set()
     for batch in batches:
         r, argv, text = mlr_run(p, records, batch, style)
         res["evals"] += 1
-        j = judge(kind, exp, r)
+        j = judge(kind, exp, r, partial_of(kind, it))
         if j is None:
+            if kind == "fatal" and r.out.strip():
+                bump(res, "expected_failures_with_output_compared_before_the_failure")
             continue
         if j[0] == "inconclusive":
             res["inconc"] += 1
             continue
         fail_kind = j[0]
+        outcome = "violation"
+        if fail_kind in reported:
+            # the same kind of disagreement at another batch size: one defect, one report; a different kind is reported
+            continue
+        reported.add(fail_kind)
         sp, srecs = (p, records)
         if do_shrink and not fail_kind.startswith("hang"):
             try:
-                sp, srecs = shrink(p, records, batch, style, fail_kind)
+                sp, srecs = shrink(p, records, batch, style, fail_kind, allowed=frozenset(it.feats))
+                # a witness that carries a risk feature (known findings are matched on those): if the disagreement
+                # persists without the feature it is a different defect and must be reported as such
+                for f in sorted(ref_run(sp, srecs)[2].feats):
+                    sp2, srecs2 = shrink(sp, srecs, batch, style, fail_kind, budget=40, allowed=frozenset(it.feats), forbid=frozenset([f]))
+                    if sp2 is not sp or srecs2 is not srecs:
+                        sp, srecs = sp2, srecs2
             except Exception:
                 sp, srecs = p, records
         k2, exp2, it2 = ref_run(sp, srecs)
         r2, argv2, text2 = mlr_run(sp, srecs, batch, style)
-        j2 = judge(k2, exp2, r2)
+        j2 = judge(k2, exp2, r2, partial_of(k2, it2)) if k2 != "decline" else None
         if j2 is None or k2 == "decline":
             sp, srecs, k2, exp2, it2, r2, argv2, text2, j2 = p, records, kind, exp, it, r, argv, text, j
         feats = sorted(it2.feats) if it2 is not None else []
@@ -297,9 +342,10 @@ def check_program(res, p, records, batches=(None,), style=0, monitor="prog", ext
         detail = {"argv": argv2, "files": {"in.json": json_input(srecs)}, "program": text2,
                   "expected": ("the run must fail: " + str(exp2)) if k2 == "fatal" else show_items(exp2),
                   "got": j2[1], "reference_outcome": k2, "unshrunk_program": text if sp is not p else None}
+        if k2 == "fatal" and it2 is not None:
+            detail["expected_output_before_the_failure"] = show_items(list(it2.out))
         add_violation(res, sig, what, detail)
-        return "violation", it
-    return kind, it
+    return outcome, it
 
 
 def nontrivial(it, exp, records, kind):
@@ -552,7 +598,11 @@ def expr_batch_case(case):
             ok = (D.parse_stdout(r.out) == exp_all)
         except Exception:
             ok = False
+    if not ok and r.verdict == "slow":
+        res["inconc"] += 1
+        return res
     nk = []
+    n_viol_before, n_inconc_before = len(res["viol"]), res["inconc"]
     if ok:
         for e, exp, label in exprs:
             nk.append(_h("e", G.pp(e)))
@@ -605,8 +655,59 @@ def expr_batch_case(case):
         add_violation(res, sig, "expr: %s for expression %s" % (j[0], G.pp(cur, style)),
                       {"argv": ["-n", "--ojsonl", "put", t], "stdin": "", "expression": G.pp(cur, style), "label": label,
                        "expected": show_items(exp), "got": j[1]})
+    if len(res["viol"]) == n_viol_before and res["inconc"] == n_inconc_before:
+        # every expression is right on its own but the block of all of them is not: a state-dependent fault (something
+        # not reset between statements).  Narrow the block down to a minimal failing run of consecutive expressions.
+        batch_only(res, exprs, style, r)
     res["nontrivial_keys"] = nk
     return res
+
+
+def _run_expr_block(res, exprs, style):
+    """-> (judgement or None, text, Result) for one end-block that prints the given expressions after the prelude."""
+    stmts = list(EXPR_PRELUDE)
+    exp_all = []
+    for e, exp, label in exprs:
+        stmts.append(("print", [e]))
+        stmts.append(("print", [("bcall", "typeof", [e])]))
+        exp_all.extend(exp)
+    text = G.pp_prog([("end", stmts)], style)
+    r = R.mlr(["-n", "--ojsonl", "put", text])
+    res["evals"] += 1
+    return judge("ok", exp_all, r), text, r, exp_all
+
+
+def batch_only(res, exprs, style, r0):
+    lo, hi = 0, len(exprs)          # exprs[lo:hi] fails as a block
+    j, text, r, exp_all = _run_expr_block(res, exprs, style)
+    if j is None:
+        # not even the same block fails a second time: a run-to-run difference, which a pure program must not show
+        add_violation(res, {"kind": "batch-not-reproducible", "monitor": "expr", "feats": "", "constructs": ""},
+                      "expr: a block of %d print statements gave a wrong result once and the expected one on re-run" % len(exprs),
+                      {"argv": ["-n", "--ojsonl", "put", text], "stdin": "", "expected": show_items(exp_all), "got": r0.brief(3000)})
+        return
+    if j[0] == "inconclusive":
+        res["inconc"] += 1
+        return
+    # shortest failing prefix, then shortest failing suffix of it (greedy halving; the failure need not be monotone,
+    # every accepted step is re-checked by an actual run)
+    changed = True
+    while changed and hi - lo > 1:
+        changed = False
+        for cand in ((lo, lo + (hi - lo + 1) // 2), (lo + (hi - lo) // 2, hi), (lo, hi - 1), (lo + 1, hi)):
+            if cand[1] - cand[0] < 1 or cand == (lo, hi):
+                continue
+            cj, ct, cr, ce = _run_expr_block(res, exprs[cand[0]:cand[1]], style)
+            if cj is not None and cj[0] == j[0]:
+                lo, hi = cand
+                j, text, r, exp_all = cj, ct, cr, ce
+                changed = True
+                break
+    add_violation(res, {"kind": "batch-only", "monitor": "expr", "failure": j[0], "feats": "", "constructs": ""},
+                  "expr: %s only when %d expressions are printed in one block (each is right alone): %s"
+                  % (j[0], hi - lo, "; ".join(G.pp(e, style) for e, _, _ in exprs[lo:hi])[:300]),
+                  {"argv": ["-n", "--ojsonl", "put", text], "stdin": "", "expressions": [G.pp(e, style) for e, _, _ in exprs[lo:hi]],
+                   "expected": show_items(exp_all), "got": j[1]})
 
 
 def expr_cases(chk):
@@ -647,6 +748,171 @@ def expr_cases(chk):
     for i in range(0, len(exprs), B):
         cases.append({"id": "%s/%d" % (chk.seed, i), "exprs": exprs[i:i + B], "style": rng.choice([0, 2])})
     return cases
+
+
+# ==========================================================================================
+# monitor: grouping of every ordered operator pair as the parser itself reports it (`put -v` prints the syntax tree).
+# Model-free and exhaustive: covers the pairs whose two groupings cannot be told apart by value (a logical operator next
+# to an arithmetic one, =~ next to nearly everything, chains of comparisons); the leaves are local-variable names, the
+# statements are in the main block of `mlr -n`, so nothing is evaluated.
+
+def ast_tree_from_pp(e):
+    k = e[0]
+    if k == "local":
+        return e[1]
+    if k == "bin":
+        return (e[1], ast_tree_from_pp(e[2]), ast_tree_from_pp(e[3]))
+    if k == "un":
+        return (e[1], ast_tree_from_pp(e[2]))
+    if k == "tern":
+        return ("?", ast_tree_from_pp(e[1]), ast_tree_from_pp(e[2]), ast_tree_from_pp(e[3]))
+    raise ValueError(k)
+
+
+_AST_LINE = re.compile(r'^( *)"(.*)" \[tt:([^\]]*)\] \[nt:([^\]]*)\]$')
+
+
+def parse_ast_dump(text):
+    """-> list of expression trees, one per assignment `x = <expr>` in the printed syntax tree."""
+    lines = text.split("\n")
+    try:
+        start = lines.index("AST:") + 1
+    except ValueError:
+        raise ValueError("no AST section")
+    nodes = []       # (depth, text, nt)
+    for ln in lines[start:]:
+        if not ln.strip():
+            break
+        m = _AST_LINE.match(ln)
+        if not m:
+            raise ValueError("unparseable AST line %r" % ln)
+        nodes.append((len(m.group(1)) // 4, m.group(2), m.group(4)))
+    pos = [0]
+
+    def build():
+        d, t, nt = nodes[pos[0]]
+        pos[0] += 1
+        kids = []
+        while pos[0] < len(nodes) and nodes[pos[0]][0] > d:
+            if nodes[pos[0]][0] != d + 1:
+                raise ValueError("indentation jump")
+            kids.append(build())
+        return (t, nt, kids)
+    root = build()
+    out = []
+
+    def conv(n):
+        t, nt, kids = n
+        if nt == "Parenthesized" and len(kids) == 1:     # explicit parentheses are kept as a one-child wrapper node
+            return conv(kids[0])
+        if not kids:
+            return t
+        return (t,) + tuple(conv(k) for k in kids)
+
+    def walk(n):
+        t, nt, kids = n
+        if nt == "Assignment":
+            out.append(conv(kids[1]))
+            return
+        for k in kids:
+            walk(k)
+    walk(root)
+    return out
+
+
+def astpair_items():
+    """(label, expression AST) for every ordered pair of binary operators, every unary/binary mix and the ternary mixes:
+    the printer of dslgen emits the text with the minimal parentheses of the documented table, both groupings."""
+    a, b, c, d = ("local", "a"), ("local", "b"), ("local", "c"), ("local", "d")
+    items = []
+    for op1 in G.BINOPS:
+        for op2 in G.BINOPS:
+            # text `a op1 b op2 c` (no parentheses) must parse as the grouping the table gives; which of the two trees
+            # prints without parentheses is decided by the printer, the other one checks that parentheses are honoured
+            items.append(("pair:%s:%s:L" % (op1, op2), ("bin", op2, ("bin", op1, a, b), c)))
+            items.append(("pair:%s:%s:R" % (op1, op2), ("bin", op1, a, ("bin", op2, b, c))))
+    for u in ["-", "+", "~", "!"]:
+        for op in G.BINOPS:
+            items.append(("unary:%s:%s:0" % (u, op), ("bin", op, ("un", u, a), b)))
+            items.append(("unary:%s:%s:1" % (u, op), ("un", u, ("bin", op, a, b))))
+            items.append(("unary:%s:%s:2" % (u, op), ("bin", op, a, ("un", u, b))))
+        for u2 in ["-", "!", "~"]:
+            items.append(("unary:%s:%s" % (u, u2), ("un", u, ("un", u2, a))))
+    for op in G.BINOPS:
+        items.append(("ternary:%s:0" % op, ("tern", ("bin", op, a, b), c, d)))
+        items.append(("ternary:%s:1" % op, ("tern", a, ("bin", op, b, c), d)))
+        items.append(("ternary:%s:2" % op, ("tern", a, b, ("bin", op, c, d))))
+        items.append(("ternary:%s:3" % op, ("bin", op, ("tern", a, b, c), d)))
+        items.append(("ternary:%s:4" % op, ("bin", op, a, ("tern", b, c, d))))
+    items.append(("ternary:nest:0", ("tern", a, b, ("tern", c, d, a))))
+    items.append(("ternary:nest:1", ("tern", ("tern", a, b, c), d, a)))
+    items.append(("ternary:nest:2", ("tern", a, ("tern", b, c, d), a)))
+    return items
+
+
+def astpair_case(case):
+    res = case_result(_h("astpair", case["id"]), nontrivial=True, evals=0)
+    items = case["items"]
+    style = case["style"]
+    texts = [G.pp(e, style) for _, e in items]
+    prog = "\n".join("x = %s;" % t for t in texts)
+    argv = ["-n", "put", "-v", prog]
+    r = R.mlr(argv)
+    res["evals"] += 1
+    if r.verdict == "slow":
+        res["inconc"] += 1
+        return res
+    sig0 = {"monitor": "astpair", "feats": "", "constructs": ""}
+    trees = None
+    if r.ok:
+        try:
+            trees = parse_ast_dump(r.out)
+        except Exception as e:
+            trees = None
+    if trees is None or len(trees) != len(items):
+        # locate the statements the parser rejects (each alone)
+        bad = 0
+        for (label, e), t in zip(items, texts):
+            q = R.mlr(["-n", "put", "-v", "x = %s;" % t])
+            res["evals"] += 1
+            ok1 = False
+            if q.ok:
+                try:
+                    ok1 = len(parse_ast_dump(q.out)) == 1
+                except Exception:
+                    ok1 = False
+            if not ok1:
+                bad += 1
+                add_violation(res, dict(sig0, kind="grammatical-expression-rejected", pair=label.rsplit(":", 1)[0] if label.startswith("pair:") else label),
+                              "astpair: `x = %s` is not accepted / not printed by put -v" % t,
+                              {"argv": ["-n", "put", "-v", "x = %s;" % t], "stdin": "", "expected": "a syntax tree", "got": q.brief(800)})
+        if not bad:
+            add_violation(res, dict(sig0, kind="batch-only"), "astpair: a block of %d assignments fails to parse / print although each does alone" % len(items),
+                          {"argv": argv, "stdin": "", "expected": "%d syntax trees" % len(items), "got": r.brief(1500)})
+        return res
+    nk = []
+    for (label, e), t, got in zip(items, texts, trees):
+        want = ast_tree_from_pp(e)
+        if got != want:
+            add_violation(res, dict(sig0, kind="ast-grouping", pair=label.rsplit(":", 1)[0] if label.startswith("pair:") else label),
+                          "astpair: `%s` is parsed as %s, the precedence table requires %s" % (t, _show_tree(got), _show_tree(want)),
+                          {"argv": ["-n", "put", "-v", "x = %s;" % t], "stdin": "", "text": t, "expected": _show_tree(want), "got": _show_tree(got)})
+        else:
+            nk.append(_h("astpair", label, t))
+    res["nontrivial_keys"] = nk
+    bump(res, "astpair_statements_checked", len(nk))
+    res["stats"].setdefault("ast_pairs_checked", set()).update(l.rsplit(":", 1)[0] for l, _ in items if l.startswith("pair:"))
+    return res
+
+
+def _show_tree(t):
+    if isinstance(t, str):
+        return t
+    if len(t) == 2:
+        return "(%s %s)" % (t[0], _show_tree(t[1]))
+    if len(t) == 3:
+        return "(%s %s %s)" % (_show_tree(t[1]), t[0], _show_tree(t[2]))
+    return "(%s ? %s : %s)" % tuple(_show_tree(x) for x in t[1:4])
 
 
 # ==========================================================================================
@@ -704,7 +970,7 @@ def check_chain(res, p, records, name):
         res["skipped"] += 1
         return "decline", None
     t1, t2 = G.pp_prog(progs[0]["prog"]), G.pp_prog(progs[1]["prog"])
-    argv = ["--ijson", "--ojsonl", "put"] + progs[0].get("flags", []) + [t1, "then", "put"] + progs[1].get("flags", []) + [t2, "in.json"]
+    argv = ["--ijson", "--ojsonl", progs[0].get("verb", "put")] + progs[0].get("flags", []) + [t1, "then", progs[1].get("verb", "put")] + progs[1].get("flags", []) + [t2, "in.json"]
     r = R.mlr(argv, files={"in.json": json_input(records)})
     res["evals"] += 1
     j = judge("ok", out2, r)
@@ -714,7 +980,7 @@ def check_chain(res, p, records, name):
         res["inconc"] += 1
         return "inconc", None
     add_violation(res, {"kind": j[0], "monitor": "shape", "shape": name, "feats": "", "constructs": "chain"},
-                  "shape %s: %s for put '%s' then put '%s'" % (name, j[0], " ".join(t1.split())[:150], " ".join(t2.split())[:150]),
+                  "shape %s: %s for %s '%s' then %s '%s'" % (name, j[0], progs[0].get("verb", "put"), " ".join(t1.split())[:150], progs[1].get("verb", "put"), " ".join(t2.split())[:150]),
                   {"argv": argv, "files": {"in.json": json_input(records)}, "expected": show_items(out2), "got": j[1]})
     return "violation", it2
 
@@ -928,7 +1194,9 @@ def canary_case(case):
     elif variant == "array_slot":
         stmt = "a = [%s]; a[%s][1] = %s; a[1][%s] = %s;" % (L, rng.choice(["2", "3", "5"]), val, key, val)
     elif variant == "typed_local":
-        stmt = "var x = %s; if (true) { x[%s] = %s } num n = 3; unset n; n[%s] = 4;" % (L, key, val, key)
+        # (a typed `num n = 3; unset n; n[k] = 4` is a type-declaration violation - the run must fail - and belongs to
+        # the typed_declarations shape, not here)
+        stmt = "var x = %s; if (true) { x[%s] = %s } var y = x; if (true) { if (true) { y[%s] = 4 } }" % (L, key, val, key)
     else:
         raise ValueError(variant)
     canaries = ("print typeof(@nosuch); print typeof(@nosuch2); print typeof(nolocal); print typeof(\"\"); print typeof(%s); z = %s; print typeof(z); print z;"
@@ -944,7 +1212,10 @@ def canary_case(case):
         files = {"in.json": json_input([{"i": k + 1} for k in range(nrec)])}
         expected = expected * nrec
     else:
-        text = pre + " end { " + stmt + " " + canaries + " " + stmt + " " + canaries + " }"
+        if variant == "typed_local":      # declarations: one scope per repetition (re-declaration in one scope is an error)
+            text = pre + " end { if (true) { " + stmt + " " + canaries + " } if (true) { " + stmt + " " + canaries + " } }"
+        else:
+            text = pre + " end { " + stmt + " " + canaries + " " + stmt + " " + canaries + " }"
         argv = ["-n", "put", text]
         files = {}
         expected = expected * 2
@@ -959,7 +1230,26 @@ def canary_case(case):
         add_violation(res, dict(sig, kind="crash-or-hang"), "canary %s: crash/hang for %s" % (variant, stmt), detail)
         return res
     if r.rc != 0:
-        # rejecting the statement outright would be a legitimate reading of the reference; nothing to observe then
+        # rejecting the statement outright would be a legitimate reading of the reference; nothing to observe then.  But
+        # only then: if the statement alone is accepted, the failure comes from the canaries (reads of untouched values,
+        # typeof(@nosuch), 1 == 1), which are valid in every program.
+        if in_main:
+            argv0 = argv[:-2] + [pre + " " + stmt, "in.json"]
+        else:
+            argv0 = ["-n", "put", pre + " end { if (true) { " + stmt + " } if (true) { " + stmt + " } }" if variant == "typed_local"
+                     else pre + " end { " + stmt + " " + stmt + " }"]
+        r0 = R.mlr(argv0, files=files)
+        res["evals"] += 1
+        if r0.verdict == "slow":
+            res["inconc"] += 1
+            return res
+        if r0.crashed() or r0.verdict != "exited":
+            add_violation(res, dict(sig, kind="crash-or-hang"), "canary %s: crash/hang for %s" % (variant, stmt), dict(detail, argv=argv0, got=r0.brief(1500)))
+            return res
+        if r0.rc == 0:
+            add_violation(res, dict(sig, kind="canary-fails"), "canary %s: `%s` alone is accepted (exit 0) but reading unrelated values after it fails (exit %s)"
+                          % (variant, stmt, r.rc), dict(detail, statement_alone_argv=argv0))
+            return res
         res["skipped"] += 1
         bump(res, "canary_statement_rejected")
         return res
@@ -1106,8 +1396,11 @@ def run(chk):
     q = chk.quick()
     chk.rule = ("expr: every ordered pair of the 29 binary operators of the precedence table (both groupings where the value domain "
                 "allows), unary/binary and ternary mixes, plus random typed expression trees of depth <= 5, printed with minimal "
-                "parentheses; prog: free-form random programs (<= ~25 statements, nesting <= 3, <= 2 functions + 1 subroutine) x 2 "
-                "heterogeneous inputs of 0-12 records x batch sizes {1, default}; shape: every shape of vf/model/dslshapes.py x N "
+                "parentheses, 40 per process (a block that fails although each expression passes alone is narrowed down and "
+                "reported as batch-only); astpair: all 841 ordered operator pairs x 2 groupings + unary/ternary mixes, syntax tree of "
+                "`put -v` vs the precedence table; prog: free-form random programs (<= ~25 statements, nesting <= 3, <= 2 functions + 1 subroutine) x 2 "
+                "heterogeneous inputs of 0-12 records (20 % with 10-16 fields, so that records cross the 12-entry key-index "
+                "threshold; heterogeneous ones with empty and float values from the data) x batch sizes {1, default}; shape: every shape of vf/model/dslshapes.py x N "
                 "random instantiations; emitverb: 7 emit variants x random grouped inputs; docs: recorded executions of the DSL "
                 "reference pages. A program counts as non-trivial when the reference executed >= 1 assignment to each of two "
                 "lvalue kinds or >= 1 call/loop/emit and the expected output is non-empty and differs from `cat`; an expression "
@@ -1115,6 +1408,11 @@ def run(chk):
     if not only or "expr" in only:
         cases = expr_cases(chk)
         chk.pmap(expr_batch_case, cases, label="expr")
+    if not only or "astpair" in only:
+        items = astpair_items()
+        cases = [{"id": "%d/%d" % (st, i), "items": items[i:i + 120], "style": st} for st in ((0,) if q else (0, 2, 4)) for i in range(0, len(items), 120)]
+        chk.pmap(astpair_case, cases, label="astpair")
+        chk.extra["astpair_statements"] = len(items)
     if not only or "shape" in only:
         reps = 10 if q else 60
         names = sorted(S.SHAPES)
@@ -1177,7 +1475,14 @@ ASSUMPTIONS = [
     "(numbers by value), printed scalars as text lines, in stdout order; print output is ordered with the record stream as the binary emits it "
     "(records of one put are written after the statements executed for them)",
     "a program on which the reference interpreter declines (see not_covered) is discarded at generation time and counted as skipped",
-    "for type-declaration violations, redeclaration in one scope, asserting_* failures and array index 0 on assignment only 'exit status != 0' is compared",
+    "for type-declaration violations, redeclaration in one scope, asserting_* failures and array index 0 on assignment the run must exit non-zero "
+    "without a parse error, and what it wrote to stdout before must be a prefix of what the reference had written when it reached the fatal statement "
+    "(output still buffered at exit may be lost)",
+    "loop variables of for (v in X) / for (k, v in X) / for ((k1, k2), v in X) are bound from a deep snapshot of X taken when the loop starts "
+    "(reference-dsl-control-structures.md: 'bound to a copy of the sub-map as it was before the loop started'); all other reads and writes in the body "
+    "see the live collection",
+    "a shrunk witness may only carry risk features (Interp.feats) that the original failing program had; if the disagreement persists without a "
+    "feature the smaller program without it is reported (so a listed finding cannot absorb a different defect)",
     "the right operand of ?? / ??? and the functions given to any/every are side-effect free in generated programs (evaluation order there is not documented)",
     "emit @*, emit all, emit $* and emit {map literal} emit every top-level key as its own emittable (reference: 'emit all ... output all out-of-stream variables', "
     "recorded example in reference-dsl-output-statements.md), whereas a function-call emittable is one map",
